@@ -344,6 +344,27 @@ def substPre (c : Circ) (i : Nat) (m : Circ) : Bool :=
     | some c' => forksFull c'
     | none => true
 
+/-! ### structural (static) well-formed use: nothing is evaluated along the run -/
+/-- the loop over `impl.nodes` makes a fork for this port of the implementation (circuit.py:423-426) -/
+def forkCond (m : Circ) (n : Nat) : Bool :=
+  ((m.nobj n).outs.length > 0 && (m.nobj n).ins.length > 0) || ((m.nobj n).ins.length == 0 && (m.nobj n).outs.length > 1)
+
+/-- the designated cell of the implementation is not one of its ports -/
+def desNotPort (m : Circ) : Bool :=
+  match implShape m with
+  | none => true
+  | some sh => match sh.des with
+    | some dn => !(inIos m dn)
+    | none => true
+
+/-- the implementation side: a well-formed circuit whose port list has no duplicates and whose designated cell is not a port -/
+def implStatic (m : Circ) : Bool := invOK m && decide m.io.Nodup && desNotPort m
+
+/-- structural well-formed use of `substitute`: `substKinds`, `noSelfLoop` on the host side, `implStatic` on the
+implementation side.  Implies `substPre0` on well-formed hosts (Proofs/CircObjSubstStatic.lean). -/
+def substStatic (c : Circ) (i : Nat) (m : Circ) : Bool :=
+  c.nodes.contains i && substKinds c i m && noSelfLoop c i && implStatic m
+
 /-- well-formed use of `resolve_tlib_cells`: every substitution it performs is one -/
 def resolvePre (lib : Lib) (c : Circ) : Bool :=
   foldG (resolveStep lib) (fun c n => match lib.find (c.nobj n).kind with | some m => substPre c n m | none => true) c c.nodes
